@@ -247,7 +247,7 @@ func c18SigOpts(ki, signer string) SigOpts {
 
 // c18Detach signs el and returns the unsigned copy and the detached Signature element.
 func c18Detach(el *etree.Element, signer string, o SigOpts) (*etree.Element, *etree.Element) {
-	s := signEnveloped(el, key(signer), o)
+	s := signEnveloped(el, c18Key(signer), o)
 	// goxmldsig appends the Signature to Child without linking its parent, so
 	// RemoveChild would not find it: cut the slice and hand out a clean copy
 	sig := s.Child[len(s.Child)-1].(*etree.Element)
@@ -388,7 +388,7 @@ func c18Build(v *c18Vec, now time.Time, rng *rand.Rand) *c18Built {
 		c18Place(final, sig, rng)
 	case "wrap_nosig", "wrap_copy", "wrap_sameid":
 		gid := fmt.Sprintf("id-genuine-%08x", rng.Uint32())
-		g := signEnveloped(c18Element(good(gid)), key(in.Key), opts)
+		g := signEnveloped(c18Element(good(gid)), c18Key(in.Key), opts)
 		if in.Sig == "wrap_sameid" {
 			fin.ID = gid
 		}
